@@ -9,6 +9,22 @@ ALL = ["C%02d" % i for i in range(1, 21)]
 
 # id -> dict(level, technique, text, note, design_ref, engine)
 CHECKS = {
+    "C04": dict(
+        level="exploration",
+        engine="E1-enum",
+        technique="bounded-exhaustive enumeration of literal expressions x every subset of literal occurrences hoisted into variables (metamorphic literal/variable equivalence)",
+        text="All depth-1 expressions over 16 literals (incl. 2^63, 2^64-1, 2^127, 0.0, '', [], {}, none) x 18 binary operators, unary -/not, list/tuple/map displays and literal keyword arguments, and all depth-2 expressions ((a o b) o c, a o (b o c), comparison chains, nested displays) over a core pool; for each, every non-empty subset of literal occurrences is replaced by a context variable holding the value the lexer produced for that literal and the result (Ok/Err, kind and text) must equal the constant-folded all-literal form (1.1e6 evaluations quick, 7.2e6 thorough). Every constant expression that fails at run time must load and stay silent inside `{% if false %}`.",
+        note="The oracle is the engine's own run-time evaluation of the hoisted form (differential between folder and VM), so a defect shared by both is invisible here (C08 covers arithmetic). Sequence repetition by counts >= 2^31 is excluded (lazy and unprintable).",
+        design_ref="2/C04",
+    ),
+    "C17": dict(
+        level="exploration",
+        engine="E1-enum",
+        technique="bounded-exhaustive enumeration of template names over the segment alphabet against a real directory tree with canaries outside the base",
+        text="Every name of up to 4 (quick) / 6 (thorough, 1.2e7 names) segments over the 15-segment alphabet of the quantifier ('', '.', '..', '...', hidden, trailing-dot, 'a..b', backslash forms, NUL, percent-encoded and unicode dot look-alikes, 300-character) is requested through get_template, include, extends and import (name computed inside the template) from a path_loader over a scratch tree; files inside the base carry IN:, canaries in the parent, grandparent and sibling directories carry OUT: under every name a traversal would reach. The loader's rule is a per-segment syntactic filter, and all sequences of segments up to the bound is exactly the space in which a missing case of that filter would show.",
+        note="Unix path semantics only; symbolic links are excluded by the property. The harness checks first that the canaries are readable through a loader rooted one level up (non-vacuity).",
+        design_ref="2/C17",
+    ),
     "C10": dict(
         level="exploration",
         engine="E1-enum",
